@@ -92,6 +92,13 @@ def gen_cases(rng, n, tier):
 
 def corpus():
     return [
+        # the same related object assigned again on an expired owner (nothing changes): no record, no version
+        dict(cfg=dict(shape='blog', strategy='validity', twin=False),
+             prog=[['add', 0, 1, {'a': 1}], ['add', 1, 1, {'a': 1}], ['tagto', 1, 1], ['commit'], ['tagto', 1, 1], ['commit'],
+                   ['add', 3, 1, {'a': 0}], ['tagto', 1, 1], ['commit'], ['set', 0, 1, {'a': 2}], ['commit']]),
+        dict(cfg=dict(shape='blog', strategy='subquery', twin=False, changes=True, autoflush=True),
+             prog=[['add', 0, 1, {'a': 1}], ['add', 0, 2, {'a': 1}], ['add', 1, 1, {'a': 1}], ['tagto', 1, 2], ['commit'], ['tagto', 1, 2],
+                   ['flush'], ['tagto', 1, 2], ['commit'], ['tagto', 1, 1], ['commit']]),
         dict(cfg=dict(shape='blog', strategy='validity', twin=False), obs_only=True,
              prog=[['add', 0, 1, {'a': 1}], ['commit'], ['set', 0, 1, {'a': 2}], ['flush'], ['sp_begin'], ['sp_release'], ['commit'],
                    ['set', 0, 1, {'a': 3}], ['add', 0, 2, {'a': 1}], ['commit'], ['set', 0, 2, {'a': 3}], ['commit']]),
